@@ -212,7 +212,9 @@ def run(cx, out):
     # premise: "failed reads add nothing" compares with what the wrapped input delivered: the provided inputs deliver
     # nothing on a failed read (C14 R14.1 slice, C08 R08.4 IoReader / BytesCursor)
     from . import shared
-    shared.premises(cx, out, {'c14': {'R14.1'}, 'c08': {'R08.4'}})
+    # "after a successful decode [the count] equals the encoded length": both entry points of a decoder consume its
+    # encoding (the in-place one is C02 R02.5; the rest of that clause is C02 itself and is not repeated here)
+    shared.premises(cx, out, {'c14': {'R14.1'}, 'c08': {'R08.4'}, 'c02': {'R02.5'}})
 
 
 def _writes_field(node, name, facts=None):
